@@ -199,3 +199,46 @@ def atc_raises(ctx, st, exc):
 def typehint_call_unit(prop):
     return Unit(prop, "jsonargparse._typehints:ActionTypeHint.__call__", atc_setup, atc_post, atc_raises, expect_cover=("return", "raise:ValueError"), max_paths=5000,
                 trusted=["_check_type_ is _check_type (its own unit) with the error conversion", "cfg.update(value, key) stores value under key (C11)", "discard_init_args_on_class_path_change: its own unit"])
+
+
+# ------------------------------------------------------------------------------------------------ ActionTypeHint.serialize
+def ser_setup(ctx):
+    list_valued = ctx.choose(2, "list-valued(nargs)") == 1
+    has_sak = ctx.choose(2, "action-has-sub_add_kwargs") == 1
+    items = [z3.Int("item0"), z3.Int("item1")]
+    value = list(items) if list_valued else z3.Int("value")
+    dump_kwargs = Rec("dump settings of the caller")
+    open_cms = []
+    sak = {"fail_untyped": True}
+    self = Rec("ActionTypeHint", attrs={"_typehint": Rec("typehint"), "default": Rec("default"), "logger": Rec("logger")})
+    if has_sak:
+        self.attrs["sub_add_kwargs"] = sak
+
+    def adapt(c, a, k):
+        c.event("adapt", a[0], a[1], dict(k), list(open_cms))
+        return ("serialised", a[0])
+
+    calls = {"_is_action_value_list": lambda c, a, k: list_valued, "adapt_typehints": adapt}
+    cms = {"dump_kwargs_context": (lambda c, a, k: open_cms.append(("dump_kwargs", a[0])), lambda c, t, e: (open_cms.pop(), False)[1])}
+    return Setup(env={"self": self, "value": value, "dump_kwargs": dump_kwargs}, calls=calls, cms=cms,
+                 data=dict(list_valued=list_valued, has_sak=has_sak, items=items, value=value, dump_kwargs=dump_kwargs, self_=self, sak=sak, open_cms=open_cms))
+
+
+def ser_post(ctx, st, result):
+    d = st.data
+    tag = f"[{'list-valued' if d['list_valued'] else 'single value'}{',sub_add_kwargs' if d['has_sak'] else ''}]"
+    ev = [e for e in ctx.events if e[0] == "adapt"]
+    vals = d["items"] if d["list_valued"] else [d["value"]]
+    ok = len(ev) == len(vals) and all(e[1] is v and e[2] is d["self_"].attrs["_typehint"] and e[3].get("serialize") is True and e[3].get("default") is d["self_"].attrs["default"]
+                                     and (e[3].get("sub_add_kwargs") is d["sak"] if d["has_sak"] else e[3].get("sub_add_kwargs") == {}) and e[4] == [("dump_kwargs", d["dump_kwargs"])] for e, v in zip(ev, vals))
+    ctx.oblige("post", "the-serialised-form-is-adapt_typehints(value, the action's own type hint, serialize=True)(item by item for a list-valued option),inside-the-caller's-dump-settings" + tag, ok)
+    want = [("serialised", v) for v in vals] if d["list_valued"] else ("serialised", d["value"])
+    ctx.oblige("post", "and-that-is-what-is-returned;no-context-left-open" + tag, result == want and not d["open_cms"])
+
+
+def ser_raises(ctx, st, exc):
+    ctx.oblige("raises", f"no-own-exception(got {exc.cls}@{exc.origin})", False)
+
+
+def serialize_unit(prop):
+    return Unit(prop, "jsonargparse._typehints:ActionTypeHint.serialize", ser_setup, ser_post, ser_raises, trusted=["adapt_typehints(serialize=True): the serialise-side obligations of the arms", "dump_kwargs_context sets the dump settings for nested dumps"])
